@@ -12,10 +12,10 @@ pub fn sub_name(project: &str, t: usize, j: usize) -> String {
 }
 
 fn sel_mine(pick: Pick) -> Sel {
-    Sel { mine: true, pick, extra: vec![] }
+    Sel { mine: true, pick, ..Sel::none() }
 }
 fn sel_any(pick: Pick) -> Sel {
-    Sel { mine: false, pick, extra: vec![] }
+    Sel { mine: false, pick, ..Sel::none() }
 }
 
 /// Swarm-style knobs: yields on/off, probability, site subset, stalls only when allowed.
@@ -151,7 +151,7 @@ pub fn f_general(seed: u64, o: &GeneralOpts) -> Plan {
                                 0..=4 => s.push(Step::new(Op::Ack { sub: name.clone(), sel: sel_mine(Pick::LastResponse) })),
                                 5 => s.push(Step::new(Op::ModAck { sub: name.clone(), sel: sel_mine(Pick::LastResponse), secs: 0 })),
                                 6 => s.push(Step::new(Op::ModAck { sub: name.clone(), sel: sel_mine(Pick::LastN(2)), secs: *rng.pick(&[1i32, 12, 30, 600]) })),
-                                7 => s.push(Step::new(Op::Ack { sub: name.clone(), sel: Sel { mine: false, pick: Pick::OldestN(2), extra: vec!["999999".into()] } })),
+                                7 => s.push(Step::new(Op::Ack { sub: name.clone(), sel: Sel { mine: false, pick: Pick::OldestN(2), extra: vec!["999999".into()], ..Sel::none() } })),
                                 _ => {}
                             }
                         }
@@ -167,7 +167,7 @@ pub fn f_general(seed: u64, o: &GeneralOpts) -> Plan {
                         };
                         s.push(Step::after(rng.below(20_000), Op::StreamOpen { slot, sub: name.clone(), max_msgs: *rng.pick(&[0i64, 1, 3, 100]), max_bytes: 0, policy }));
                         if rng.chance(400) {
-                            s.push(Step::after(rng.range(1_000, 200_000), Op::StreamSend { slot, ack: sel_any(Pick::LastN(3)), modack: Sel::none(), modack_secs: 0, raw_sub: String::new(), raw_max_msgs: 0, raw_max_bytes: 0, extra_secs: vec![] }));
+                            s.push(Step::after(rng.range(1_000, 200_000), Op::StreamSend { slot, ack: sel_any(Pick::LastN(3)), modack: Sel::none(), modack_secs: 0, raw_sub: String::new(), raw_max_msgs: 0, raw_max_bytes: 0, extra_secs: vec![], secs_pattern: vec![] }));
                         }
                         if consumer_faults && rng.chance(300) {
                             s.push(Step::after(rng.range(1_000, 300_000), Op::StreamDrop { slot }));
@@ -278,7 +278,7 @@ pub fn f_lease(seed: u64, o: &LeaseOpts) -> Plan {
                 Op::Pull { sub: sub.clone(), max, immediate: true }
             }
             6 => Op::Ack { sub: sub.clone(), sel: sel_any(rng.pick(&[Pick::LastN(1), Pick::Nth(0), Pick::Nth(1), Pick::LastResponse, Pick::OldestN(1)]).clone()) },
-            7 => Op::Ack { sub: sub.clone(), sel: Sel { mine: false, pick: Pick::None, extra: vec![rng.pick(&["424242", "1", "3", "0"]).to_string()] } },
+            7 => Op::Ack { sub: sub.clone(), sel: Sel { mine: false, pick: Pick::None, extra: vec![rng.pick(&["424242", "1", "3", "0"]).to_string()], ..Sel::none() } },
             8 => Op::Nop,
             9 | 10 => {
                 let secs = *rng.pick(&[0i32, 0, 1, 5, 9, 10, 11, 30, 599, 600, 601, 100_000, i32::MAX]);
@@ -287,11 +287,28 @@ pub fn f_lease(seed: u64, o: &LeaseOpts) -> Plan {
                 }
                 Op::ModAck { sub: sub.clone(), sel: sel_any(rng.pick(&[Pick::LastN(1), Pick::Nth(0), Pick::LastResponse, Pick::All, Pick::Nth(2)]).clone()), secs }
             }
+            _ if rng.chance(350) => {
+                // a large batch: live ids first, then unknown filler ids, with or without one
+                // malformed element at a drawn position (start / around the 1000th element / end)
+                let filler = *rng.pick(&[5u32, 998, 999, 1000, 1001, 1500, 2100]);
+                let bad_at = match rng.below(5) {
+                    0 => None,
+                    1 => Some(0),
+                    2 => Some(filler / 2),
+                    3 => Some(filler.min(1001)),
+                    _ => Some(u32::MAX),
+                };
+                let secs = *rng.pick(&[0i32, 30, 600]);
+                if bad_at.is_none() && secs > 0 {
+                    marks.push(now + (secs.min(600) as u64) * 1_000_000);
+                }
+                Op::ModAck { sub: sub.clone(), sel: Sel { mine: false, pick: rng.pick(&[Pick::LastN(2), Pick::All, Pick::LastResponse]).clone(), filler, bad_at, ..Sel::none() }, secs }
+            }
             _ => {
                 // a request that must be rejected as a whole
                 let bad = rng.chance(500);
                 if bad {
-                    Op::ModAck { sub: sub.clone(), sel: Sel { mine: false, pick: Pick::LastN(2), extra: vec!["not-a-number".into()] }, secs: 30 }
+                    Op::ModAck { sub: sub.clone(), sel: Sel { mine: false, pick: Pick::LastN(2), extra: vec!["not-a-number".into()], ..Sel::none() }, secs: 30 }
                 } else {
                     Op::ModAck { sub: sub.clone(), sel: sel_any(Pick::LastN(2)), secs: *rng.pick(&[-1i32, i32::MIN, -600]) }
                 }
@@ -367,7 +384,10 @@ pub fn f_consumers(seed: u64, cancel: bool) -> Plan {
                     slot += 1;
                     let policy = if rng.chance(500) { StreamPolicy::Hold } else { StreamPolicy::AckAll };
                     s.push(Step::after(rng.below(3) * rng.below(2_000), Op::StreamOpen { slot: my, sub: sub.clone(), max_msgs: *rng.pick(&[0i64, 1, 2]), max_bytes: 0, policy }));
-                    if cancel && rng.chance(200) {
+                    if rng.chance(350) {
+                        // one frame mixing nacks and extensions for what this stream holds
+                        s.push(Step::after(rng.range(1, 4) * 1_000, Op::StreamSend { slot: my, ack: Sel::none(), modack: sel_mine(Pick::LastN(rng.range(2, 4) as u32)), modack_secs: 0, raw_sub: String::new(), raw_max_msgs: 0, raw_max_bytes: 0, extra_secs: vec![], secs_pattern: rng.pick(&[vec![0, 30], vec![30, 0], vec![0, 0, 20], vec![15, 0, 0]]).clone() }));
+                    } else if cancel && rng.chance(200) {
                         s.push(Step::after(rng.below(3) * rng.below(3_000), Op::StreamDrop { slot: my }));
                     }
                 }
@@ -764,8 +784,8 @@ pub fn f_names(seed: u64, contention: u64, abandon: bool) -> Plan {
                     11 | 12 => Op::GetSub { sub },
                     13 => Op::Publish { topic: t, msgs: msgs(&mut rng, 1, false) },
                     14 => Op::Pull { sub, max: 10, immediate: true },
-                    15 => Op::Ack { sub, sel: Sel { mine: false, pick: Pick::LastN(1), extra: vec!["77".into()] } },
-                    16 => Op::ModAck { sub, sel: Sel { mine: false, pick: Pick::LastN(1), extra: vec!["78".into()] }, secs: 15 },
+                    15 => Op::Ack { sub, sel: Sel { mine: false, pick: Pick::LastN(1), extra: vec!["77".into()], ..Sel::none() } },
+                    16 => Op::ModAck { sub, sel: Sel { mine: false, pick: Pick::LastN(1), extra: vec!["78".into()], ..Sel::none() }, secs: 15 },
                     17 => Op::ListPage { kind: ListKind::Topics, parent: format!("projects/{}", rng.pick(&projects)), page_size: 1000, token: String::new() },
                     18 => Op::ListPage { kind: ListKind::Subs, parent: format!("projects/{}", rng.pick(&projects)), page_size: 1000, token: String::new() },
                     _ => Op::Walk { kind: ListKind::TopicSubs, parent: t, page_size: 1000 },
@@ -850,7 +870,7 @@ pub fn f_cancel(seed: u64) -> Plan {
                 match rng.below(3) {
                     0 => Op::GetSub { sub: sub.clone() },
                     1 => Op::Pull { sub: sub.clone(), max: 1, immediate: true },
-                    _ => Op::ModAck { sub: sub.clone(), sel: Sel { mine: false, pick: Pick::None, extra: vec!["4242".into()] }, secs: 10 },
+                    _ => Op::ModAck { sub: sub.clone(), sel: Sel { mine: false, pick: Pick::None, extra: vec!["4242".into()], ..Sel::none() }, secs: 10 },
                 }
             };
             scripts.push(vec![Step::new(op)]);
@@ -960,11 +980,11 @@ pub fn f_hostile(seed: u64) -> Plan {
                             ids.push(rng.pick(&bad_acks).clone());
                         }
                     }
-                    Op::Ack { sub: sub.clone(), sel: Sel { mine: false, pick: Pick::All, extra: ids } }
+                    Op::Ack { sub: sub.clone(), sel: Sel { mine: false, pick: Pick::All, extra: ids, ..Sel::none() } }
                 }
-                15 | 16 => Op::ModAck { sub: sub.clone(), sel: Sel { mine: false, pick: Pick::All, extra: vec![rng.pick(&bad_acks).clone()] }, secs: *rng.pick(&[0i32, 30]) },
+                15 | 16 => Op::ModAck { sub: sub.clone(), sel: Sel { mine: false, pick: Pick::All, extra: vec![rng.pick(&bad_acks).clone()], ..Sel::none() }, secs: *rng.pick(&[0i32, 30]) },
                 17 => Op::ModAck { sub: sub.clone(), sel: sel_any(Pick::All), secs: *rng.pick(&[-1i32, i32::MIN]) },
-                18 => Op::Ack { sub: sub.clone(), sel: Sel { mine: false, pick: Pick::None, extra: vec![rng.pick(&odd_acks).clone()] } },
+                18 => Op::Ack { sub: sub.clone(), sel: Sel { mine: false, pick: Pick::None, extra: vec![rng.pick(&odd_acks).clone()], ..Sel::none() } },
                 19 => Op::ListPage { kind: ListKind::Topics, parent: rng.pick(&["", "proj-h", "projects", "projectsproj-h", "projects/proj-h"]).to_string(), page_size: *rng.pick(&[-1i32, i32::MIN, 0, 5]), token: rng.pick(&["", "@@@", "AAAA", "AAAAAAAAAAA="]).to_string() },
                 20 => Op::ListPage { kind: ListKind::Subs, parent: "projects/proj-h".into(), page_size: *rng.pick(&[-7i32, 0, i32::MAX]), token: rng.pick(&["", "%%%", "AAAAAAAAAAAA", "AAAAAAAAAAA="]).to_string() },
                 21 => Op::ListPage { kind: ListKind::TopicSubs, parent: name, page_size: 10, token: String::new() },
@@ -978,7 +998,7 @@ pub fn f_hostile(seed: u64) -> Plan {
                     slot += 1;
                     Op::StreamOpen { slot: my, sub: sub2.clone(), max_msgs: *rng.pick(&[-1i64, 65536, i64::MAX, i64::MIN]), max_bytes: *rng.pick(&[0i64, -1, i64::MAX]), policy: StreamPolicy::Hold }
                 }
-                _ => Op::ModAck { sub: sub.clone(), sel: Sel { mine: false, pick: Pick::None, extra: vec![] }, secs: -5 },
+                _ => Op::ModAck { sub: sub.clone(), sel: Sel { mine: false, pick: Pick::None, extra: vec![], ..Sel::none() }, secs: -5 },
             };
             s.push(Step::after(rng.below(2) * rng.below(500), op));
         }
@@ -988,11 +1008,11 @@ pub fn f_hostile(seed: u64) -> Plan {
     if rng.chance(600) {
         let my = slot;
         let hostile = match rng.below(5) {
-            0 => Op::StreamSend { slot: my, ack: Sel::none(), modack: Sel::none(), modack_secs: 0, raw_sub: sub2.clone(), raw_max_msgs: 0, raw_max_bytes: 0, extra_secs: vec![] },
-            1 => Op::StreamSend { slot: my, ack: Sel::none(), modack: Sel::none(), modack_secs: 0, raw_sub: String::new(), raw_max_msgs: 5, raw_max_bytes: 0, extra_secs: vec![] },
-            2 => Op::StreamSend { slot: my, ack: Sel::none(), modack: Sel::none(), modack_secs: 0, raw_sub: String::new(), raw_max_msgs: 0, raw_max_bytes: 9, extra_secs: vec![] },
-            3 => Op::StreamSend { slot: my, ack: Sel::none(), modack: sel_any(Pick::LastN(1)), modack_secs: 20, raw_sub: String::new(), raw_max_msgs: 0, raw_max_bytes: 0, extra_secs: vec![30] },
-            _ => Op::StreamSend { slot: my, ack: Sel { mine: false, pick: Pick::LastN(2), extra: vec![rng.pick(&bad_acks).clone()] }, modack: Sel::none(), modack_secs: 0, raw_sub: String::new(), raw_max_msgs: 0, raw_max_bytes: 0, extra_secs: vec![] },
+            0 => Op::StreamSend { slot: my, ack: Sel::none(), modack: Sel::none(), modack_secs: 0, raw_sub: sub2.clone(), raw_max_msgs: 0, raw_max_bytes: 0, extra_secs: vec![], secs_pattern: vec![] },
+            1 => Op::StreamSend { slot: my, ack: Sel::none(), modack: Sel::none(), modack_secs: 0, raw_sub: String::new(), raw_max_msgs: 5, raw_max_bytes: 0, extra_secs: vec![], secs_pattern: vec![] },
+            2 => Op::StreamSend { slot: my, ack: Sel::none(), modack: Sel::none(), modack_secs: 0, raw_sub: String::new(), raw_max_msgs: 0, raw_max_bytes: 9, extra_secs: vec![], secs_pattern: vec![] },
+            3 => Op::StreamSend { slot: my, ack: Sel::none(), modack: sel_any(Pick::LastN(1)), modack_secs: 20, raw_sub: String::new(), raw_max_msgs: 0, raw_max_bytes: 0, extra_secs: vec![30], secs_pattern: vec![] },
+            _ => Op::StreamSend { slot: my, ack: Sel { mine: false, pick: Pick::LastN(2), extra: vec![rng.pick(&bad_acks).clone()], ..Sel::none() }, modack: Sel::none(), modack_secs: 0, raw_sub: String::new(), raw_max_msgs: 0, raw_max_bytes: 0, extra_secs: vec![], secs_pattern: vec![] },
         };
         let mut st = vec![Step::new(Op::StreamOpen { slot: my, sub: sub2.clone(), max_msgs: 0, max_bytes: 0, policy: StreamPolicy::Hold }), Step::after(rng.range(1_000, 50_000), hostile)];
         // mark ack-id-hostile sends as hostile too (the harness flags raw_* and unequal lists itself)
@@ -1067,5 +1087,65 @@ pub fn f_limits(seed: u64, allow_huge: bool) -> Plan {
     tail.push(Step::after(200_000, Op::StreamDrop { slot: 1 }));
     plan.phases.push(Phase { scripts: vec![tail], advance_us: 11_500_000, audit: true });
     plan.phases.push(Phase { scripts: vec![vec![Step::new(Op::Pull { sub: sub.clone(), max: limit, immediate: true }), Step::new(Op::Pull { sub: sub.clone(), max: 1000, immediate: true })]], advance_us: 0, audit: false });
+    plan
+}
+
+
+// ------------------------------------------------------------------------------------------------
+// F-lease-parked: the delivery is handed to a consumer that had been parked for a while.
+// ------------------------------------------------------------------------------------------------
+
+pub fn f_lease_parked(seed: u64) -> Plan {
+    let mut rng = Rng::new(seed);
+    let mut plan = Plan { seed, family: "lease_parked".into(), final_drain: true, health_probe: false, ..Default::default() };
+    plan.tags.push("sequential".into());
+    plan.tags.push("double_audit".into());
+    plan.knobs = knobs(&mut rng, false, 0);
+    plan.knobs.pre_advance_us = rng.below(400_000);
+    let topic = topic_name("proj-k", 0);
+    let sub = sub_name("proj-k", 0, 0);
+    let dl_req = *rng.pick(&[0i32, 10, 10, 11, 17, 60]);
+    let d_us = (dl_req.max(10) as u64) * 1_000_000;
+    plan.phases.push(Phase {
+        scripts: vec![vec![Step::new(Op::CreateTopic { topic: topic.clone() }), Step::new(Op::CreateSub { sub: sub.clone(), topic: topic.clone(), ack_deadline: dl_req, push: None })]],
+        advance_us: rng.below(300_000),
+        audit: false,
+    });
+    // a consumer parks ...
+    let streaming = rng.chance(300);
+    let park = if streaming {
+        Op::StreamOpen { slot: 1, sub: sub.clone(), max_msgs: *rng.pick(&[0i64, 10]), max_bytes: 0, policy: StreamPolicy::Hold }
+    } else {
+        Op::PullBg { slot: 1, sub: sub.clone(), max: *rng.pick(&[1i32, 10, 1000]) }
+    };
+    let waited = *rng.pick(&[1_000_000u64, 3_000_000, 6_000_000, 9_500_000, 10_500_000, 25_000_000, 120_000_000]) + rng.below(500_000);
+    plan.phases.push(Phase { scripts: vec![vec![Step::new(park)]], advance_us: waited, audit: false });
+    // ... then the message arrives and is handed to it; the stream is closed so that the later
+    // probes are the only consumer
+    let mut s = vec![Step::new(Op::Publish { topic: topic.clone(), msgs: msgs_r(&mut rng, 1, 2, false) })];
+    if streaming {
+        s.push(Step::after(5_000, Op::StreamDrop { slot: 1 }));
+    }
+    plan.phases.push(Phase { scripts: vec![s], advance_us: 0, audit: true });
+    // probes on both sides of the deadline, dated from the hand-out (= the publish)
+    let mut probes: Vec<Step> = Vec::new();
+    let mut now = 60_000u64; // the barriers of the previous phase took about this long
+    for target in [d_us / 2, d_us.saturating_sub(waited.min(d_us - 1_000)).max(1_000_000), d_us - 1_200_000, d_us - 200_000] {
+        if rng.chance(500) && target > now {
+            probes.push(Step::after(target - now, Op::Pull { sub: sub.clone(), max: 1000, immediate: true }));
+            now = target;
+        }
+    }
+    // a second consumer parks before the deadline and must be woken by the expiry (C04.blocked)
+    if rng.chance(500) {
+        probes.push(Step::new(Op::PullBg { slot: 2, sub: sub.clone(), max: 10 }));
+        plan.phases.push(Phase { scripts: vec![probes], advance_us: d_us + 1_300_000 - now.min(d_us), audit: true });
+        plan.phases.push(Phase { scripts: vec![], advance_us: 0, audit: true });
+    } else {
+        let late = d_us + 1_200_000;
+        probes.push(Step::after(late.saturating_sub(now), Op::Pull { sub: sub.clone(), max: 1000, immediate: true }));
+        plan.phases.push(Phase { scripts: vec![probes], advance_us: *rng.pick(&[0u64, 12_000_000]), audit: true });
+    }
+    plan.phases.push(Phase { scripts: vec![vec![Step::new(Op::Pull { sub: sub.clone(), max: 1000, immediate: true })]], advance_us: 0, audit: false });
     plan
 }
